@@ -145,6 +145,7 @@ func repCases() []repCase {
 	add("ConstantOfShape", []hx.Attr{hx.ATensor("value", ref.FromF(ref.F32, []int{1}, 2.5), "typed")}, 1, "single-element-typed-value", ref.I64Vec(1))
 	add("ConstantOfShape", []hx.Attr{hx.ATensor("value", ref.FromF(ref.F32, []int{1}, 2.5), "typed")}, 1, "single-element-rank2-typed-value", ref.I64Vec(1, 1))
 	add("ConstantOfShape", []hx.Attr{hx.ATensor("value", ref.FromF(ref.F32, []int{1}, 2.5), "raw")}, 1, "single-element-raw-value", ref.I64Vec(1))
+	add("ConstantOfShape", nil, 1, "no-attributes(default-zero)", ref.I64Vec(2, 3))
 	add("Constant", []hx.Attr{hx.ATensor("value", ref.FromF(ref.F32, []int{1}, 2.5), "typed")}, 1, "single-element-typed")
 	add("Constant", []hx.Attr{hx.AFloat("value_float", 2.5)}, 1, "value_float")
 	add("Constant", []hx.Attr{hx.AInts("value_ints", 1, 2, 3)}, 1, "value_ints")
